@@ -25,7 +25,7 @@ def run(ctx):
     unspellable = 0
     for p in progs:
         for mode in (('ws', 'cmt') if quick else ('ws', 'cmt', 'blank', 'ws')):
-            sp = sqlprog.spell(p, rng, gaps=mode, tight=(rng.random() < 0.3), canonical_kw=True)
+            sp = sqlprog.spell(p, rng, gaps=mode, tight=(rng.random() < 0.3), canonical_kw=True, tail=True)
             if not sqlprog.lexes_as_intended(sp):
                 unspellable += 1
                 continue
